@@ -48,6 +48,9 @@ def check_params(ctx, spec, root, tag, model_out):
                      {'tasks': [t['full'] for t in impl['ok']]})
     elif 'ok' in impl:
         chain = impl['chain']
+        if set(ref['ok']) != set(chain.tasks):
+            ctx.fail('a config\'s declarations (tasks / excluded_tasks) leaked into, or were lost from, another config', full_case,
+                     {'missing': sorted(set(ref['ok']) - set(chain.tasks)), 'extra': sorted(set(chain.tasks) - set(ref['ok']))})
         for n, t in ref['ok'].items():
             if n not in chain.tasks:
                 continue
@@ -104,6 +107,7 @@ def run(ctx):
     quiet()
     root = ctx.tmpdir()
     specs = [builder.gen_case(ctx.rng('wf', i)) for i in range(ctx.n(160, 2400))]
+    specs += [builder.gen_case(ctx.rng('nested-ctx', i), ctx_kind='uses', wellformed=True) for i in range(ctx.n(60, 600))]     # contexts using contexts
     specs += [builder.gen_case(ctx.rng('conflict', i), conflict=True) for i in range(ctx.n(30, 400))]
     specs += [builder.gen_case(ctx.rng('mal', i), malformed=True) for i in range(ctx.n(30, 400))]
     reqs = [builder.encode(spec, pl.Built(root / f'c{i}', spec['module'], spec)) for i, spec in enumerate(specs)]
